@@ -123,17 +123,17 @@ Qed.
    Ra has a tabulated scattering length and cross sections, but no element density, and has_sld()
    asks for one although the calculation at a given density does not use it *)
 Definition ra_witness : struct := [(1%Q, FAtom (mkAtom 88 0 0)); (3%Q, FAtom (mkAtom 8 0 0))].
-Lemma ra_witness_c :
-  (forallb (fun p => spec_has_data the_nd (fst p)) (atoms_of ra_witness)
-   && match neutron_scattering the_nd ra_witness (Some 5%Q) None [WLam (1798 # 1000)] with ONone => true | _ => false end)%bool
-  = true.
+Definition ra_check (D : ndata) : bool :=
+  (forallb (fun p => spec_has_data D (fst p)) (atoms_of ra_witness)
+   && match neutron_scattering D ra_witness (Some 5%Q) None [WLam (1798 # 1000)] with ONone => true | _ => false end)%bool.
+Lemma ra_witness_c : ra_check the_nd = true.
 Proof. vm_compute. reflexivity. Qed.
 
 Theorem values_iff_tabulated_refuted :
   exists s rho w, (forall p, In p (atoms_of s) -> spec_has_data the_nd (fst p) = true) /\
                   neutron_scattering the_nd s (Some rho) None [w] = ONone.
 Proof.
-  exists ra_witness, 5%Q, (WLam (1798 # 1000)). pose proof ra_witness_c as H.
+  exists ra_witness, 5%Q, (WLam (1798 # 1000)). pose proof ra_witness_c as H. unfold ra_check in H.
   apply andb_prop in H. destruct H as [H1 H2]. split.
   - intros p Hin. rewrite forallb_forall in H1. exact (H1 p Hin).
   - destruct (neutron_scattering the_nd ra_witness (Some 5%Q) None [WLam (1798 # 1000)]); try discriminate H2.
@@ -163,6 +163,9 @@ Qed.
 (* atoms_of of the one-atom formula *)
 Lemma atoms_of_one : forall a, atoms_of [(1%Q, FAtom a)] = [(a, Qred (0 + 1 * 1)%Q)].
 Proof. intro a. reflexivity. Qed.
+
+Lemma Q2R_011 : Q2R (0 + 1 * 1) = 1.
+Proof. rewrite Q2R_plus, Q2R_mult, RMicromega.Q2R_0, RMicromega.Q2R_1. ring. Qed.
 
 Definition same_numbers (x y : outs * list compE) : Prop :=
   map ev (outs_list (fst x)) = map ev (outs_list (fst y)).
@@ -194,11 +197,11 @@ Section OneAtom.
     assert (Hm : 0 < m) by (apply Q2R_pos; exact Hmass).
     assert (Hr : 0 < Q2R rho) by (apply Q2R_pos; exact Hrho).
     pose proof NA_pos as HNA.
-    replace (Q2R (0 + 1 * 1)) with 1 by (unfold Q2R; cbn; lra).
+    rewrite Q2R_011.
     assert (HN : Q2R nd * Q2R E24m = (0 + 1) / ((0 + m * 1) / Q2R rho / Q2R NAq * Q2R E24)).
     { rewrite Q2R_E24. replace (Q2R E24m) with (/ (100000000 * 100000000 * 100000000)).
-      - fold atom in Hrel. fold m in Hrel.
-        replace (Q2R nd) with (Q2R rho * Q2R NAq / m) by (rewrite <- Hrel; field; lra).
+      - assert (Hrel' : Q2R nd * m = Q2R rho * Q2R NAq) by exact Hrel.
+        replace (Q2R nd) with (Q2R rho * Q2R NAq / m) by (rewrite <- Hrel'; field; lra).
         field. repeat split; lra.
       - unfold E24m, Q2R. cbn [Qnum Qden]. change (Z.pos (10 ^ 24)) with (100000000 * 100000000 * 100000000)%Z.
         rewrite !mult_IZR. lra. }
@@ -223,7 +226,7 @@ Section OneAtom.
     { destruct (Qeq_bool _ 0) eqn:E; [|reflexivity]. exfalso. apply Qeq_bool_iff in E.
       apply Qeq_eqR in E. rewrite Q2R_mult in E. unfold rweight in E. cbn [fold_left fst snd] in E.
       rewrite Q2R_Qred, Q2R_plus, Q2R_mult, Q2R_Qred in E.
-      replace (Q2R (0 + 1 * 1)) with 1 in E by (unfold Q2R; cbn; lra).
+      rewrite Q2R_011 in E.
       rewrite !RMicromega.Q2R_0 in E.
       assert (0 < Q2R (e_mass (nd_env D) atom)) by (apply Q2R_pos; exact Hmass).
       assert (0 < Q2R rho) by (apply Q2R_pos; exact Hrho). nra. }
@@ -258,7 +261,8 @@ Proof.
   rewrite Hme in *.
   destruct (density_of t d z 0) as [r| |] eqn:Er; try discriminate.
   destruct (mass_of t z 0) as [me| |] eqn:Eme; try discriminate.
-  destruct (Qeq_bool me 0) eqn:Ez; [discriminate|]. inversion Hnd; subst nd. clear Hnd.
+  destruct (Qeq_bool me 0) eqn:Ez; [discriminate|].
+  set (x := Qred (r / me * NAq)) in Hnd. assert (Hx : nd = x) by congruence. rewrite Hx. unfold x. clear Hnd Hx x.
   rewrite Q2R_Qred, Q2R_mult.
   assert (Hme0 : Q2R me <> 0).
   { intro E. assert (me == 0)%Q. { apply eqR_Qeq. rewrite E. symmetry. apply RMicromega.Q2R_0. }
@@ -268,9 +272,11 @@ Proof.
   rewrite Z.eqb_refl in Er.
   destruct (Z.eqb a 0) eqn:Ea.
   - apply Z.eqb_eq in Ea. subst a. rewrite Eme in *. cbn [q_of] in *.
-    destruct orho as [r0|]; [|discriminate]. inversion Er; subst r0. inversion Hrho; subst rho. field. exact Hme0.
-  - destruct orho as [r0|]; [|discriminate]. inversion Er; subst r0.
-    rewrite Eme in Hrho. destruct (mass_of t z a) as [mi| |] eqn:Emi; try discriminate.
-    rewrite Ez in Hrho. inversion Hrho; subst rho. cbn [q_of].
+    destruct orho as [r0|]; [|discriminate Er]. assert (r0 = r) by congruence. subst r0.
+    assert (rho = r) by congruence. subst rho. field. exact Hme0.
+  - destruct orho as [r0|]; [|discriminate Er]. assert (r0 = r) by congruence. subst r0.
+    rewrite Eme in Hrho. destruct (mass_of t z a) as [mi| |] eqn:Emi; try discriminate Hrho.
+    rewrite Ez in Hrho. set (y := Qred (r * (mi / me))) in Hrho.
+    assert (Hy : rho = y) by congruence. rewrite Hy. unfold y. clear Hrho Hy y. cbn [q_of].
     rewrite Q2R_Qred, Q2R_mult, Q2R_div' by exact Hme0. field. exact Hme0.
 Qed.
